@@ -153,6 +153,36 @@ theorem ctx?_removeChild (w : World) (parent : Option CtxId) (c c' : CtxId) (x :
       · rw [ctx?_setCtx_other _ _ _ _ hp]
         exact ⟨x, h, rfl, rfl⟩
 
+/-! ### cancellation -/
+
+theorem effStack_of_not_cancel (be : BlockEnd) (st : List Cb) (h : be.isCancel = false) :
+    effStack be st = st := by
+  simp [effStack, h]
+
+theorem underCancelList_nil : Cb.underCancel.underCancelList [] = [] := by
+  rw [Cb.underCancel.underCancelList]
+
+theorem underCancelList_cons (c : Cb) (cs : List Cb) :
+    Cb.underCancel.underCancelList (c :: cs) = c.underCancel :: Cb.underCancel.underCancelList cs := by
+  rw [Cb.underCancel.underCancelList]
+
+theorem underCancelList_eq_map (st : List Cb) :
+    Cb.underCancel.underCancelList st = st.map Cb.underCancel := by
+  induction st with
+  | nil => rw [underCancelList_nil]; rfl
+  | cons c cs ih => rw [underCancelList_cons, ih]; rfl
+
+theorem underCancel_sync (id : Nat) (p : Bool) (body : List BodyOp) (regs : List Cb) (r : Option Exc) :
+    (Cb.mk id p false body regs r).underCancel =
+      Cb.mk id p false body (regs.map Cb.underCancel) r := by
+  rw [Cb.underCancel, underCancelList_eq_map]
+  simp
+
+theorem underCancel_async (id : Nat) (p : Bool) (body : List BodyOp) (regs : List Cb) (r : Option Exc) :
+    (Cb.mk id p true body regs r).underCancel = Cb.mk id p true [] [] (some .cancelled) := by
+  rw [Cb.underCancel]
+  simp
+
 /-! ### the `exit` step -/
 
 /-- The outcome reported by `__aexit__`, as computed in the `exit` case of `step`. -/
@@ -168,13 +198,13 @@ theorem step_exit (w : World) (t : TaskId) (c : CtxId) (be : BlockEnd) (x : Ctx)
     (hx : w.ctx? c = some x) (hs : x.state = .opened) :
     step w (.exit t c be) =
       (removeChild
-        ((w.setCtx c { (runTeardown c be x.tds { x with state := .closing, tds := [] }).1 with
+        ((w.setCtx c { (runTeardown c be (effStack be x.tds) { x with state := .closing, tds := [] }).1 with
             state := .closed }).setCur t (x.token.getD Option.none)) x.parent c,
-       (runTeardown c be x.tds { x with state := .closing, tds := [] }).2.1 ++
+       (runTeardown c be (effStack be x.tds) { x with state := .closing, tds := [] }).2.1 ++
          [.closed, exitOutcome be x.parent.isNone x.children
-            (runTeardown c be x.tds { x with state := .closing, tds := [] }).2.2]) := by
-  have hch : (runTeardown c be x.tds { x with state := .closing, tds := [] }).1.children =
-      x.children := (runTeardown_frame c be x.tds _).2.2.1
+            (runTeardown c be (effStack be x.tds) { x with state := .closing, tds := [] }).2.2]) := by
+  have hch : (runTeardown c be (effStack be x.tds) { x with state := .closing, tds := [] }).1.children =
+      x.children := (runTeardown_frame c be (effStack be x.tds) _).2.2.1
   simp only [step, hx, hs, exitOutcome, ne_eq, not_true_eq_false, if_false]
   rw [hch]
   rfl
